@@ -4,6 +4,7 @@
    at bytes q+2..q+6) and [marker_at s q] ("LHA-SFX" or "LhASFX V1.2," at q) are
    defined on byte lists independently of the scanner. *)
 From Lhasa Require Import Base Generated InputStream P_Sfx.
+From Lhasa Require Import Header BasicReader Fs Reader P_StreamEquiv P_BasicReaderIndep P_ReaderIndep P_KindIndep P_KindIndepReader P_KindIndepSfx.
 Local Open Scope N_scope.
 
 (* Any prefix P shorter than 262152 bytes (> the promised 255 KiB) with no match
@@ -53,8 +54,88 @@ Theorem sfx_literal_reading_refuted : exists P A,
     is_leadin st' ++ so_data (is_src st') = P ++ A /\ is_leadin st' ++ so_data (is_src st') <> A.
 Proof. exact P_Sfx.sfx_literal_refuted. Qed.
 
+
+(* ====== the whole iteration and the whole reader API across the four kinds ====== *)
+(* (from Properties_C16_Kinds) -- C16, whole iteration: "The members an archive
+   yields - headers, data and verdicts - are the same whether it is read from a
+   seekable file, a non-seekable pipe (including '-' for standard input), or
+   caller-supplied callbacks with or without skip support.  They are also
+   unchanged when the first header is preceded by up to 255 KiB of bytes that
+   contain neither an archive-method signature nor a self-extractor marker, as in
+   self-extracting executables, and when such a stub embeds one decoy header after
+   an 'LHA-SFX' or 'LhASFX V1.2,' marker."
+
+   Statements only; proofs in P_KindIndep.v (stream, header parser, basic
+   reader), P_AnyParam2.v (binary parametricity of the decoders),
+   P_KindIndepReader.v (reader API), P_KindIndepSfx.v (prefixes).
+   Properties_C16.v has the scan-level statements.
+
+   [run_ops mktime junk (r, f) l] (P_ReaderIndep.v) runs a list of API calls
+   OpNext / OpRead n / OpCheck monitor / OpExtract filename monitor from reader r
+   and filesystem f and returns what each call returned ([obs]: entry + header +
+   "is a fake entry", bytes, verdict); [observed] keeps those and the final
+   filesystem; [reader_on k data p] is the reader made for a source of kind k
+   over data, with directory policy p.  2^40 = 1099511627776 is the model's fuel
+   for the read-based skip loops. *)
+
+
+(* The basic reader: n calls of lha_basic_reader_next_file return the same
+   headers (or end in the same Fault / OutOfFuel) for any two kinds of source. *)
+Theorem headers_same_for_all_kinds : forall mktime data k1 k2 n, nlen data < 1099511627776 ->
+  orel hn_rel
+    (headers_n mktime n (lha_basic_reader_new (lha_input_stream_new (mk_source k1 data))))
+    (headers_n mktime n (lha_basic_reader_new (lha_input_stream_new (mk_source k2 data)))).
+Proof. exact P_KindIndep.headers_same_for_all_kinds. Qed.
+
+(* Where the kinds differ: skipping more bytes than remain succeeds on a seekable
+   file and fails on the other kinds; nothing is left either way, and a header
+   read that follows reports "no header" on both. *)
+Theorem skip_truncated_differs_in_flag_only : forall mktime a b m, kind_rel a b ->
+  nlen (so_data (is_src a)) < m -> nlen (so_data (is_src a)) < 1099511627776 ->
+  exists a' b',
+    lha_input_stream_skip a m = Ok (is_file (so_kind (is_src a)), a') /\
+    lha_input_stream_skip b m = Ok (is_file (so_kind (is_src b)), b') /\
+    kind_rel a' b' /\ so_data (is_src a') = [] /\ so_data (is_src b') = [] /\
+    (is_state a <> IS_INIT -> nlen (is_leadin a) < 22 ->
+     (exists a'', lha_file_header_read mktime a' = Ok (None, a'')) /\
+     (exists b'', lha_file_header_read mktime b' = Ok (None, b''))).
+Proof. exact P_KindIndep.lha_input_stream_skip_kind_truncated. Qed.
+
+(* The reader API: every sequence of calls, every policy, every filesystem: the
+   same observations and the same final filesystem for any two kinds. *)
+Theorem members_same_for_all_kinds : forall mktime junk data p f l k1 k2, nlen data < 1099511627776 ->
+  observed (run_ops mktime junk (reader_on k1 data p, f) l) =
+  observed (run_ops mktime junk (reader_on k2 data p, f) l).
+Proof. exact P_KindIndepReader.members_same_for_all_kinds. Qed.
+
+(* ... and behind a self-extractor prefix (quiet, or with one marker and one
+   decoy header), through any kind, against the bare archive through any kind. *)
+Theorem members_same_after_sfx_prefix : forall mktime junk P A p f l k1 k2,
+  nlen P < sfx_scan_limit -> 13 <= nlen A -> match_at A 0 = true ->
+  (forall q, q < nlen P -> match_at (P ++ A) q = false /\ marker_at (P ++ A) q = false) ->
+  nlen A < 1099511627776 - sfx_scan_limit ->
+  observed (run_ops mktime junk (reader_on k1 (P ++ A) p, f) l) =
+  observed (run_ops mktime junk (reader_on k2 A p, f) l).
+Proof. exact P_KindIndepSfx.members_same_after_sfx_prefix. Qed.
+
+Theorem members_same_after_sfx_decoy : forall mktime junk P A m d p f l k1 k2,
+  nlen P < sfx_scan_limit -> 13 <= nlen A -> match_at A 0 = true ->
+  m <= d -> d < nlen P ->
+  (forall q, q < nlen P -> (marker_at (P ++ A) q = true <-> q = m)) ->
+  (forall q, q < nlen P -> (match_at (P ++ A) q = true <-> q = d)) ->
+  nlen A < 1099511627776 - sfx_scan_limit ->
+  observed (run_ops mktime junk (reader_on k1 (P ++ A) p, f) l) =
+  observed (run_ops mktime junk (reader_on k2 A p, f) l).
+Proof. exact P_KindIndepSfx.members_same_after_sfx_decoy. Qed.
+
+
 Print Assumptions sfx_prefix_skipped.
 Print Assumptions sfx_one_decoy.
 Print Assumptions scan_independent_of_kind.
 Print Assumptions sfx_prefix_skipped_any_chunking.
 Print Assumptions sfx_literal_reading_refuted.
+Print Assumptions headers_same_for_all_kinds.
+Print Assumptions skip_truncated_differs_in_flag_only.
+Print Assumptions members_same_for_all_kinds.
+Print Assumptions members_same_after_sfx_prefix.
+Print Assumptions members_same_after_sfx_decoy.
